@@ -40,8 +40,11 @@ structure Worker where
   probed : Nat             -- wkr.probed
 deriving DecidableEq, Repr, Inhabited
 
-/-- set insert on a duplicate-free list -/
+/-- `m[u] = …` on the key list of a Go map -/
 def sInsert (l : List Uuid) (u : Uuid) : List Uuid := if l.contains u then l else l ++ [u]
+
+/-- `delete(m, u)` on the key list of a Go map -/
+def sRemove (l : List Uuid) (u : Uuid) : List Uuid := l.filter (fun x => x != u)
 
 namespace Worker
 
@@ -56,14 +59,14 @@ def accept (w : Worker) (u : Uuid) : Worker :=
 /-- The completion closure of `startContainer`, run when `rr.Start()` has returned:
 `updated = busy = now; delete(starting, uuid); running[uuid] = rr`. -/
 def startDone (w : Worker) (u : Uuid) (now : Nat) : Worker :=
-  { w with updated := now, busy := now, starting := w.starting.erase u, running := sInsert w.running u }
+  { w with updated := now, busy := now, starting := sRemove w.starting u, running := sInsert w.running u }
 
 /-- `wkr.closeRunner(uuid)`: nothing if `uuid` is not in `running`; otherwise remove it, stamp
 `updated`, and go Idle when nothing is left. The second component says whether
 `wp.exited[uuid] = now` was recorded. -/
 def closeRunner (w : Worker) (u : Uuid) (now : Nat) : Worker × Bool :=
   if w.running.contains u then
-    let w1 := { w with running := w.running.erase u, updated := now }
+    let w1 := { w with running := sRemove w.running u, updated := now }
     (if w1.state == .running && w1.isEmpty then { w1 with state := .idle } else w1, true)
   else (w, false)
 
@@ -97,14 +100,20 @@ def adoptAlive (w : Worker) : List Uuid → Worker × Bool
   | u :: rest =>
     if w.running.contains u then adoptAlive w rest
     else
-      let w1 := { w with running := w.running ++ [u], starting := w.starting.erase u }
+      let w1 := { w with running := w.running ++ [u], starting := sRemove w.starting u }
       ((adoptAlive w1 rest).1, true)
 
-/-- Second loop of `updateRunning`: `closeRunner` for every running uuid that was not reported.
-Returns the closed uuids (each gets `wp.exited[uuid] = now`). -/
+/-- Second loop of `updateRunning`: `closeRunner` for every running uuid that was not reported
+(written here in closed form: all of them are removed, `updated` is stamped if there was one,
+and the worker goes Idle if it was Running and nothing is left; `closeDead_eq_fold` in
+Proofs/C14_L2.lean shows this is the sequence of `closeRunner` calls). Returns the closed uuids
+(each gets `wp.exited[uuid] = now`). -/
 def closeDead (w : Worker) (alive : List Uuid) (now : Nat) : Worker × List Uuid :=
   let dead := w.running.filter (fun u => !alive.contains u)
-  (dead.foldl (fun w u => (w.closeRunner u now).1) w, dead)
+  if dead.isEmpty then (w, [])
+  else
+    let w1 := { w with running := w.running.filter (fun u => alive.contains u), updated := now }
+    (if w1.state == .running && w1.isEmpty then { w1 with state := .idle } else w1, dead)
 
 /-- `wkr.updateRunning(ctrUUIDs)`: new worker, uuids closed, `changed`. -/
 def updateRunning (w : Worker) (alive : List Uuid) (now : Nat) : Worker × List Uuid × Bool :=
@@ -127,32 +136,46 @@ deriving Repr, Inhabited
 
 namespace Worker
 
+/-- `if reportedBroken && idleBehavior == Run { setIdleBehavior(Drain) }` -/
+def drainStep (w : Worker) (p : Probe) (now : Nat) : Worker :=
+  if p.broken && w.idleB == .run then w.setIdleBehavior .drain false p.allGivenUp now else w
+
+/-- `!ok || (!booted && len(ctrUUIDs) == 0 && len(wkr.running) == 0)` -/
+def probeFailed (w : Worker) (p : Probe) : Bool :=
+  !p.ok || (!p.booted && p.uuids.isEmpty && w.running.isEmpty)
+
+/-- The failed-probe branch: nothing if a shutdown was initiated during the probe, otherwise
+`shutdownIfBroken(dur)`. -/
+def applyFailed (w : Worker) (p : Probe) (now : Nat) : Worker :=
+  if w.state == .shutdown && decide (w.updated > p.stamp) then w
+  else if w.idleB != .hold && p.timedOut then w.shutdown now
+  else w
+
+/-- The branch that uses the probe result: busy stamp, `updateRunning`, first-boot transition,
+Idle/Running fix-up, `updated` stamp. -/
+def applyFresh (w : Worker) (p : Probe) (now : Nat) : Worker × List Uuid :=
+  let w := if !p.uuids.isEmpty || !w.running.isEmpty then { w with busy := now } else w
+  let r := w.updateRunning p.uuids now
+  let w := r.1
+  let firstBoot := p.booted && (w.state == .unknown || w.state == .booting)
+  let w := if firstBoot then { w with state := .idle } else w
+  if !(r.2.2 || firstBoot) then (w, r.2.1)
+  else
+    let w := if w.state == .idle && !w.isEmpty then { w with state := .running }
+             else if w.state == .running && w.isEmpty then { w with state := .idle }
+             else w
+    ({ w with updated := now }, r.2.1)
+
 /-- The final critical section of `probeAndUpdate`. Returns the worker and the uuids whose
 `wp.exited` entry is set to `now`. -/
 def probeApply (w : Worker) (p : Probe) (now : Nat) : Worker × List Uuid :=
-  -- `if reportedBroken && idleBehavior == Run { setIdleBehavior(Drain) }`
-  let w := if p.broken && w.idleB == .run then w.setIdleBehavior .drain false p.allGivenUp now else w
-  if !p.ok || (!p.booted && p.uuids.isEmpty && w.running.isEmpty) then
-    if w.state == .shutdown && decide (w.updated > p.stamp) then (w, [])
-    -- shutdownIfBroken(dur)
-    else if w.idleB != .hold && p.timedOut then (w.shutdown now, [])
-    else (w, [])
+  let w := w.drainStep p now
+  if w.probeFailed p then (w.applyFailed p now, [])
   else
     let w := { w with probed := now }
     -- the stale-probe guard
     if p.stamp != w.updated then (w, [])
-    else
-      let w := if !p.uuids.isEmpty || !w.running.isEmpty then { w with busy := now } else w
-      let r := w.updateRunning p.uuids now
-      let w := r.1
-      let firstBoot := p.booted && (w.state == .unknown || w.state == .booting)
-      let w := if firstBoot then { w with state := .idle } else w
-      if !(r.2.2 || firstBoot) then (w, r.2.1)
-      else
-        let w := if w.state == .idle && !w.isEmpty then { w with state := .running }
-                 else if w.state == .running && w.isEmpty then { w with state := .idle }
-                 else w
-        ({ w with updated := now }, r.2.1)
+    else w.applyFresh p now
 
 end Worker
 
